@@ -427,11 +427,11 @@ boost::optional<ndsize_t> getSetIndex(const double position, std::vector<std::st
         }
         
 
-        bool equals = fabs(tmp - position) <= numeric_limits<double>::epsilon();
+        bool equals = tmp == position;
         index = (match == PositionMatch::Greater && equals) ? static_cast<ndsize_t>(tmp + 1) : static_cast<ndsize_t>(tmp);
     } else if (match == PositionMatch::Less || match == PositionMatch::LessOrEqual) {
         tmp = floor(position);
-        bool equals = fabs(tmp - position) <= numeric_limits<double>::epsilon();
+        bool equals = tmp == position;
         if (match == PositionMatch::Less && equals) { 
             if (tmp >= 1) {
                 index = static_cast<ndsize_t>(tmp - 1);
@@ -441,7 +441,7 @@ boost::optional<ndsize_t> getSetIndex(const double position, std::vector<std::st
         }
     } else {
         tmp = round(position);
-        if (fabs(tmp - position) <= numeric_limits<double>::epsilon()) {
+        if (tmp == position) {
             index = static_cast<ndsize_t>(tmp);
         }
     }
@@ -823,11 +823,11 @@ boost::optional<ndsize_t> getDataFrameIndex(const double position, const ndsize_
             tmp = 0.0;
         }
 
-        bool equals = fabs(tmp - position) <= numeric_limits<double>::epsilon();
+        bool equals = tmp == position;
         index = (match == PositionMatch::Greater && equals) ? static_cast<ndsize_t>(tmp + 1) : static_cast<ndsize_t>(tmp);
     } else if (match == PositionMatch::Less || match == PositionMatch::LessOrEqual) {
         tmp = floor(position);
-        bool equals = fabs(tmp - position) <= numeric_limits<double>::epsilon();
+        bool equals = tmp == position;
         if (match == PositionMatch::Less && equals) { 
             if (tmp >= 1) {
                 index = static_cast<ndsize_t>(tmp - 1);
@@ -837,7 +837,7 @@ boost::optional<ndsize_t> getDataFrameIndex(const double position, const ndsize_
         }
     } else {
         tmp = round(position);
-        if (fabs(tmp - position) <= numeric_limits<double>::epsilon()) {
+        if (tmp == position) {
             index = static_cast<ndsize_t>(tmp);
         }
     }
